@@ -439,6 +439,21 @@ func (st *States) exitAndEnter(sctx switchContext, current handler) (func(), fun
 	e := util.StringError("switch state")
 	l := st.stateSwitchContextLog(sctx, current)
 
+	// NOTE allow consensus can be withdrawn after the switch context was
+	// checked; SetAllowConsensus holds stateLock, so it is settled here.
+	if next := sctx.next(); (next == StateConsensus || next == StateJoining) &&
+		current != nil && current.state() != StateHandover && !st.AllowedConsensus() {
+		if current.state() == StateSyncing {
+			return nil, nil, ErrIgnoreSwitchingState.Errorf("not allowed to enter consensus states; keep syncing")
+		}
+
+		if vsctx, ok := sctx.(voteproofSwitchContext); ok {
+			return nil, nil, newSyncingSwitchContextWithVoteproof(current.state(), vsctx.voteproof())
+		}
+
+		return nil, nil, emptySyncingSwitchContext(current.state())
+	}
+
 	var cdefer, ndefer func()
 
 	// NOTE if switching to broken, error during exiting from current handler
